@@ -35,6 +35,7 @@ import Rooc.Proofs.LinTolCounter
 import Rooc.Proofs.LinWire
 import Rooc.Proofs.LinSucceed2
 import Rooc.Proofs.LinDExamples3
+import Rooc.Proofs.LinDExamples4
 namespace Rooc.Props.C01
 open Rooc Rooc.Lin
 open Rooc.Lin.Gadget (B01 DomMax DomMin)
@@ -658,18 +659,25 @@ end Bridge
 `try_lower_affine_logic_assertion`, `directional_logic_witness`, `try_normalize_logic_constraint`)
 
 No syntactic fragment is left: the theorems hold for EVERY model on which the compilation succeeds, under a
-semantic contract on the source expressions.  Vocabulary (`Rooc/Proofs/LinD2.lean`, `LinD4.lean`, `LinD5.lean`,
-`LinD10.lean`, `LinD11.lean`, `LinBridgeLogic.lean`):
-* `GoodE d e` — the contract on a source expression `e` over the domains `d`: every variable is declared with a
-  usage mark; every literal is finite (`finiteLits`, syntactic); and at EVERY ASSIGNMENT THAT SATISFIES `d`:
-  `e` is defined (`DefOn`), and NO and/or NODE COLLAPSES TO A NON-0/1 VALUE (`NCon`: for every and/or node `n`
-  of `e`, `simplify n` is 0/1-valued where defined).  The last clause is exactly what C10's singleton-collapse
-  finding violates; it is implied by `collapsesNonbinary (isBoolVar d) e = false` — the Lean port of the harness
-  flag `nary-singleton-nonbinary` (`harness/src/props/c01.rs::collapses_nonbinary`) — see `no_collapse_check`,
-  and by C10's stronger `LogicOperands01` on the domains (`LOon`, `noCollapse_of_logicOperands`), for which
-  `operandsOK d e` is a syntactic check.  `Exp.mayBeUndefined e = false` (the Rust guard) with finite literals is a
-  decidable sufficient condition for `DefOn` (`defined_check`).
-* `LogicModel m d` — objective and both sides of every constraint (comparison or bare assertion) are `GoodE d`.
+STATIC contract on the source expressions — definedness is proved, not assumed.  Vocabulary
+(`Rooc/Proofs/LinD2.lean`, `LinD4.lean`, `LinD5.lean`, `LinD10.lean`, `LinD11.lean`, `LinDef1–3.lean`,
+`LinBridgeLogic.lean`):
+* `GoodS d e` — the static contract on a source expression `e` over the domains `d`: every variable is declared
+  with a usage mark; every literal is finite (`finiteLits`, syntactic); and at every assignment that satisfies
+  `d` NO and/or NODE COLLAPSES TO A NON-0/1 VALUE (`NCon`: for every and/or node `n` of `e`, `simplify n` is
+  0/1-valued where defined).  The last clause is exactly what C10's singleton-collapse finding violates; it is
+  implied by `collapsesNonbinary (isBoolVar d) e = false` — the Lean port of the harness flag
+  `nary-singleton-nonbinary` (`harness/src/props/c01.rs::collapses_nonbinary`) — see `no_collapse_check`, and by
+  C10's stronger `LogicOperands01` on the domains (`LOon`, `noCollapse_of_logicOperands`), for which
+  `operandsOK d e` is a syntactic check.
+* `GoodE d e` — `GoodS d e` plus `DefOn d e` (defined at every assignment satisfying `d`); used INSIDE the
+  development (the specifications of the lowering functions below take `DefOn` of their argument); the
+  end-to-end theorems obtain it from the successful run (`process_constraint_defined`).
+* `VerdictDef d c` — the residual clause (finding 4): IF `c` is a comparison whose normalised sides make
+  `try_normalize_logic_constraint` answer `Tautology`/`Contradiction`, THEN both sides are `DefOn d`
+  (`verdict_check`; `c01_verdict_counterexample` shows that rooc needs it).
+* `SrcD d c` — both sides of the constraint `c` are `GoodS d`, and `VerdictDef d c`.
+* `LogicModel m d` — the objective is `GoodS d`, every constraint (comparison or bare assertion) is `SrcD d`.
   Every `FragModel` is a `LogicModel`.
 * `HasTruth e t ρ` — `e` evaluates to `1` (`t = true`) / `0` (`t = false`) at `ρ`;
   `AssertOK d0 s s' e t` — the loop state `s'` has, up to fresh auxiliaries, exactly the solutions of `s` at
@@ -907,6 +915,20 @@ compilation is rejected. -/
 theorem c01_pruned_operand_regression :
     linearizeWith (exPr : Model (Ext K)) [] (exPr : Model (Ext K)).domain = .error .divisionByZero :=
   exPr_error
+
+/-- **the residual clause `VerdictDef` cannot be dropped** (FINDING 4 on the real code, confirmed with
+`Linearizer::linearize`): `min x s.t. c: (b and (x / 0)) ≤ 1`, `x ∈ Real(0, 1)`, `b` Boolean.
+`try_normalize_logic_constraint` answers `Tautology` from the literal `1` alone, so the logic value is never
+lowered and its division by zero never reported: the model compiles to NO row, the linear model is feasible, the
+source model is not (`(b and (x / 0)) ≤ 0` IS rejected).  Every static clause of the contract holds (scope, finite
+literals, no collapsing node), and so do `DomRel` and `BoxEnforced`. -/
+theorem c01_verdict_counterexample :
+    ∃ (m : Model (Ext K)) (b : BoundsMap (Ext K)) (d : List (DomVar (Ext K))) (lm : LinModel (Ext K))
+      (ρ : String → K),
+      linearizeWith m b d = .ok lm ∧ DomRel m d ∧ BoxEnforced b d ∧
+      (∀ c ∈ m.constraints, GoodS d c.lhs ∧ GoodS d c.rhs) ∧ GoodS d m.objective ∧
+      linFeasible lm ρ = true ∧ ∀ ρ' : String → K, ¬ srcFeasible m ρ' = true :=
+  verdict_needed
 
 /-- **`AssertShape` is discharged for every model that comes over the wire** (`Model.dec`, the decoder the
 checker uses): a bare assertion is always stored as `lhs = 1`. -/
